@@ -355,6 +355,20 @@ def alias_roots(term: P, params, extra=frozenset()) -> set:
     return set()
 
 
+def _fresh_container(term: P) -> bool:
+    """A dict / list built in this function (literal, comprehension, dict(...) / list(...) call): assigning to one of its slots changes
+    the container, not the objects it was built from."""
+    a = term.as_atom()
+    if not (a and a[0] == "obj"):
+        return False
+    i = a[3].as_atom()
+    if not i:
+        return False
+    if i[0] in ("dict", "tuple", "comp"):
+        return True
+    return i[0] == "call" and (call_name(i) or "") in ("dict", "list", "set", "collections.OrderedDict", "collections.defaultdict")
+
+
 def param_mutations(repo, mod, qual, depth=0, _seen=None, extra=frozenset()):
     """{param name: [description]} : parameters of a function that it may modify in place (directly, through views obtained
     with asarray/reshape/get/slicing, through ``out=`` arguments, in-place methods, or by handing them to a function that does)."""
@@ -375,6 +389,8 @@ def param_mutations(repo, mod, qual, depth=0, _seen=None, extra=frozenset()):
         if e.kind in ("store", "aug"):
             t = e.target.as_atom()
             if t and t[0] in ("sub", "attr"):
+                if t[0] == "sub" and _fresh_container(t[1]):
+                    continue        # d = dict(a=x); d["k"] = v  puts a key into a container made here; x itself is not touched
                 hit(alias_roots(t[1], params, extra), f"writes into {str(e.target)[:60]}", e)
         elif e.kind == "assign" and e.extra.get("aug") and e.extra.get("old") is not None:
             old = e.extra["old"]
